@@ -17,15 +17,17 @@ def val(p):
 
 
 def scribble(p):
-    """overwrite a returned Poly / coefficient in place: results must be independent of operands and of later results"""
+    """overwrite a returned Poly / coefficient in place through the public mutators (item assignment, size / dim
+    setters): results must be independent of operands and of later results"""
     try:
         if hasattr(p, 'ival') and isinstance(p.ival, list):
             for i in range(len(p.ival)):
-                p.ival[i] = (p.ival[i] + 1) & (p.mask if p.mask != -1 else 0xff)
-            p.ival.append(1)
+                p[i] = (p.ival[i] + 1) & (p.mask if p.mask != -1 else 0xff)
+            p.dim = len(p.ival) + 1
         elif hasattr(p, 'ival'):
-            p.ival = p.ival ^ p.mask
             p.size = p.size + 1
+            for i in range(p.size):
+                p[i] = 1 - p.bit(i)
     except Exception:
         pass
 
